@@ -56,7 +56,7 @@ var c02Universe = func() []string {
 			set[string(p)] = true
 		}
 	}
-	for _, k := range []string{"A", "B", "d", "~", "\x01", "\xff", "aA", "abca", "abcc", "cccc", "aab", "x", "1"} {
+	for _, k := range []string{"A", "B", "d", "~", "\x01", "\xff", "aA", "abca", "abcc", "cccc", "aab", "x", "1", "a\xff\x00", "a\xffb", "a\xff\xff", "\xff\xff", "\xffa"} {
 		set[k] = true
 	}
 	delete(set, "")
@@ -173,6 +173,11 @@ func c02Atoms() []c02Atom {
 	out = append(out, c02Atom{gen.In(K(), gen.Str("b"), gen.Str("zz"), gen.Str("ab")), "mget", false})
 	// listed keys that are not stored, sorting before stored ones (point reads that find nothing first)
 	out = append(out, c02Atom{gen.In(K(), gen.Str("c"), gen.Str("aaaa"), gen.Str("b"), gen.Str("aaab")), "mget", false})
+	// literals ending in the highest byte value (no successor: "prefix + 1" has to carry)
+	out = append(out, c02Atom{gen.Bin("^=", K(), gen.Str("a\xff")), "prefix", false})
+	out = append(out, c02Atom{gen.Bin("^=", K(), gen.Str("\xff")), "prefix", false})
+	out = append(out, c02Atom{gen.Bin(">=", K(), gen.Str("a\xff")), "ge", false})
+	out = append(out, c02Atom{gen.Between(K(), gen.Str("a\xff"), gen.Str("b")), "between", false})
 	// specials around the empty literal
 	out = append(out, c02Atom{gen.Bin(">=", K(), gen.Str("")), "opaque", true})
 	out = append(out, c02Atom{gen.Bin("<=", K(), gen.Str("")), "le", true})
